@@ -684,6 +684,8 @@ def make_shims(world):
 
     jax = NS(
         "jax",
+        named_scope=TransparentContext(),
+        default_matmul_precision=TransparentContext(),
         numpy=jnp_ns,
         lax=lax,
         random=random,
@@ -777,6 +779,13 @@ def make_shims(world):
         "argparse": Opaque("argparse"),
     }
     return shims
+
+
+class TransparentContext(object):
+    __axi_transparent_context__ = True
+
+    def __call__(self, *a, **k):
+        return self
 
 
 class _UfuncMultiply(object):
